@@ -176,6 +176,8 @@ def extra_instances():
     # the same fragment written in two atom orders inside one object (descriptors address atoms by position in their own text)
     add(M("N[>]", S("[>]", ["[<]CCO[>]", "[<]OCC[>]"], ["[<]F"], "[]", g(100)), name="same-fragment-two-orders"))
     add(M("N[>]", S("[>]", ["[<]CC(C)[>]", "[<]C(C)C[>]"], ["[<]F"], "[]", g(90)), name="same-fragment-two-orders-carbon"))
+    # a hydrogen written explicitly inside a token, before the atom that carries a descriptor
+    add(M("C[>]", S("[>]", ["[<]C([H])(C)C[>]"], [], "[<]", g(40)), "[<]O", name="explicit-H-before-descriptor"))
     # two $-objects in a row, both with end groups (an end group's descriptor is compatible with the right terminal)
     add(M("C[$]", S("[$]", ["[$]CC[$]"], ["[$][H]"], "[$]", g(30)), S("[$]", ["[$]CO[$|0.5|]", "[$]CS[$]"], ["[$]F"], "[$]", g(40)), "[$]N",
           name="dollar-diblock-endgroups"))
